@@ -46,6 +46,9 @@ def rand_json(rng, depth=0):
         if c == 4:
             return rng.choice(["", "x", "tab\t", "nl\n", "q\"", "\u0000", "\u001f", "café",
                                "\U0001F600", "\\", "/", " "])
+        if depth == 0 and rng.random() < 0.08:
+            # a value that makes the record line longer than a reader's buffer (8 KiB / 64 KiB)
+            return "L" * rng.choice([9000, 70000]) + "é"
         return "".join(chr(rng.randrange(0x20, 0x250)) for _ in range(rng.randrange(0, 10)))
     if r < 0.72:
         return [rand_json(rng, depth + 1) for _ in range(rng.randrange(0, 4))]
@@ -101,6 +104,9 @@ def small_universe(rng, nkeys=6, ndata=5, hostile=True, sizes=None):
 
 def rand_opts(rng, full=False):
     o = {}
+    if full and rng.random() < 0.05:
+        o["meta"] = {"big": "B" * rng.choice([8200, 66000]), "tail": [1, 2, 3]}
+        return o
     if rng.random() < (0.7 if full else 0.3):
         o["time"] = str(rand_time(rng))
     if rng.random() < (0.7 if full else 0.3):
@@ -201,8 +207,8 @@ def history_program(rng, length, lanes=ALL_LANES, nkeys=6, ndata=5, removal_weig
 # ---------------------------------------------------------------------------------------
 
 MIB = 1024 * 1024
-SIZE_CLASSES_SMALL = [0, 1, 2, 3, 7, 64, 255, 1000, 4096, 8192, 8193, 70000]
-SIZE_CLASSES_BIG = [MIB - 1, MIB, MIB + 1, 3 * MIB + 17]
+SIZE_CLASSES_SMALL = [0, 1, 2, 3, 7, 64, 255, 1000, 4096, 8191, 8192, 8193, 16384, 16385, 65536, 65537, 70000]
+SIZE_CLASSES_BIG = [MIB - 1, MIB, MIB + 1, 2 * MIB, 2 * MIB + 1, 3 * MIB + 17]
 
 
 def chunkings(rng, n, big=False):
@@ -711,6 +717,11 @@ def link_program(rng, ncases, lanes=ALL_LANES):
         pre = rng.random() < 0.2
         if pre:   # the address already exists as regular content
             prog["steps"].append({"op": "write", "lane": rng.choice(lanes), "data": d, "algo": "sha256"})
+        elif rng.random() < 0.15:
+            # the address already exists as a link to ANOTHER file holding the same bytes
+            t0 = "t%dtwin" % c
+            prog["steps"].append({"op": "env_ext", "id": t0, "blob": d})
+            prog["steps"].append({"op": "link_to", "lane": rng.choice(lanes), "target": t0})
         how = rng.choice(["oneshot", "linker", "linker_opts"])
         expect_ok = True
         if how == "oneshot":
@@ -806,6 +817,8 @@ def index_damage_program(rng, lanes=ALL_LANES, nrec=3, flips="sample", cuts="all
     k = add_key(prog, ("ключ-é-%d" % rng.randrange(10 ** 6)) if multibyte else "k%d" % rng.randrange(10 ** 6))
     datas = [_mk_data(prog, rng, n) for n in (3, 10)]
     metas = [{"é": "ü", "n": 1}, None, "short"]
+    if rng.random() < 0.35:
+        metas[rng.randrange(3)] = {"long": "x" * rng.choice([8300, 66000])}   # a line longer than a read buffer
     nbytes = 0
     for i in range(nrec):
         o = {"meta": metas[i % 3], "time": str(1000 + i)}
